@@ -68,3 +68,45 @@ Example capture_example :
   text (bf (nodes (render g [] 4) [NCapture [120]%N body; NOutput (EPath [120]%N [])] c empty_buf))
   = [97; 98; 48]%N.
 Proof. vm_compute. repeat split; reflexivity. Qed.
+
+(** * assign *)
+
+(** `{% assign x = e %}{{ x }}`: when [e] evaluates to [v] (not a live forloop
+    object) and no block scope shadows [x], the pair writes what `{{ e }}` writes,
+    leaves [x] bound to [v] as a local, and touches nothing else of the context. *)
+Theorem assign_then_output g ld fuel x e v c b :
+  eval (S fuel) c e = EOk v ->
+  has_forloop v = false ->
+  chain_lookup x (scopes c) = None ->
+  let c' := set_locals c (dict_set x v (locals c)) in
+  nodes (render g ld (S (S fuel))) [NAssign x e; NOutput (EPath x [])] c b
+  = mk (st (write_value (EOk v) c b)) c' (bf (write_value (EOk v) c b)).
+Proof.
+  cbv zeta. intros He Hf Hs.
+  change (render g ld (S (S fuel))) with (render_step g ld (eval (S fuel)) (render g ld (S fuel))).
+  set (R := render g ld (S fuel)) in *.
+  cbn [nodes render_step]. rewrite He, Hf. cbn [st cx bf mk].
+  cbn [eval eval_step eval_segs]. rewrite lookup_captured by exact Hs.
+  cbn [walk]. unfold write_value. destruct (to_liquid_string v); reflexivity.
+Qed.
+
+(** the text is the text of `{{ e }}` *)
+Corollary assign_then_output_text g ld fuel x e v c b :
+  eval (S fuel) c e = EOk v ->
+  has_forloop v = false ->
+  chain_lookup x (scopes c) = None ->
+  bf (nodes (render g ld (S (S fuel))) [NAssign x e; NOutput (EPath x [])] c b)
+  = bf (render g ld (S (S fuel)) (NOutput e) c b).
+Proof.
+  intros He Hf Hs. rewrite (assign_then_output g ld fuel x e v c b He Hf Hs).
+  change (render g ld (S (S fuel))) with (render_step g ld (eval (S fuel)) (render g ld (S fuel))).
+  cbn [render_step bf mk]. rewrite He. reflexivity.
+Qed.
+
+Example assign_example :
+  let g := {| suppress := false; depth_limit := 30 |} in
+  let c := fresh_ctx 30 [] [] in
+  eval 2 c (ELit (VInt 42)) = EOk (VInt 42) /\
+  text (bf (nodes (render g [] 3) [NAssign [120]%N (ELit (VInt 42)); NOutput (EPath [120]%N [])] c empty_buf))
+  = [52; 50]%N.
+Proof. vm_compute. split; reflexivity. Qed.
